@@ -1,10 +1,112 @@
 /-
-  Driver ops for C11.
+  Driver ops for C11 (value equality, hashing, sets, records).
+    set-ops   {"a":[v…],"b":[v…],"probes":[v…]}  a, b are the ARGUMENT LISTS given to `NewSet`
+              (order and duplicates kept).  The model is run five times — the open-addressed table with the real
+              hash `goHash`, with three deliberately terrible hashes (kind tag mod 3, constant 0, constant
+              2^64-1 so that probing wraps around), and the list operations used by `CedarGo.eval` —
+              and the five answers must coincide (C11_hash_unobservable, C11_set_refines_list).
+    hash      {"v":v}            goHash v, compared with the Go hook `types.VerifHash`
+    eq        {"a":v,"b":v}      Value.beq both ways, kind comparison, hash comparison
+    rec-ops   {"a":[[k,v]…],"b":[[k,v]…],"probes":[k…]}  records built by assigning the pairs in order:
+              Go-map model (`RecImpl`) and key-sorted list model (`mkRecord`) must coincide
 -/
 import CedarGo.Driver.Ops.Core
+import CedarGo.Model.SetImpl
 namespace CedarGo.Driver
 open Lean CedarGo
 
-def c11Ops : List (String × Handler) := []
+def bit (b : Bool) : String := if b then "1" else "0"
+def bits (bs : List Bool) : String := String.join (bs.map bit)
+
+def decValues (j : Json) : D (List Value) := do (← jArr j).mapM decValue
+
+/-- all observations of the pair of sets (a, b) and the probes, through the table model with `hash` -/
+def setObsImpl (hash : Value → UInt64) (a b probes : List Value) : String :=
+  let sa := newSet hash a
+  let sb := newSet hash b
+  s!"lenA={sa.len} lenB={sb.len} inA={bits (probes.map (sa.contains hash))} inB={bits (probes.map (sb.contains hash))}" ++
+  s!" eqAB={bit (sa.equal hash sb)} eqBA={bit (sb.equal hash sa)} eqAA={bit (sa.equal hash sa)}" ++
+  s!" allAB={bit (sa.containsAll hash sb)} allBA={bit (sb.containsAll hash sa)}" ++
+  s!" anyAB={bit (sa.containsAny hash sb)} anyBA={bit (sb.containsAny hash sa)}" ++
+  s!" members={showValue (.set sa.slice)}"
+
+def setMembers : Value → List Value
+  | .set xs => xs
+  | _ => []
+
+/-- the same observations through the list operations of the evaluator model -/
+def setObsList (a b probes : List Value) : String :=
+  let va := mkSet a
+  let vb := mkSet b
+  let sa := setMembers va
+  let sb := setMembers vb
+  s!"lenA={sa.length} lenB={sb.length} inA={bits (probes.map (·.memL sa))} inB={bits (probes.map (·.memL sb))}" ++
+  s!" eqAB={bit (va.beq vb)} eqBA={bit (vb.beq va)} eqAA={bit (va.beq va)}" ++
+  s!" allAB={bit (sb.all (·.memL sa))} allBA={bit (sa.all (·.memL sb))}" ++
+  s!" anyAB={bit (sb.any (·.memL sa))} anyBA={bit (sa.any (·.memL sb))}" ++
+  s!" members={showValue va}"
+
+def opSetOps : Handler := fun _ j => do
+  let a ← decValues (← field j "a")
+  let b ← decValues (← field j "b")
+  let probes ← decValues (fieldOr j "probes" (.arr #[]))
+  let rs := [("go", setObsImpl goHash a b probes), ("kind", setObsImpl kindHash a b probes),
+             ("const", setObsImpl constHash a b probes), ("wrap", setObsImpl wrapHash a b probes),
+             ("list", setObsList a b probes)]
+  match rs with
+  | (_, r) :: rest =>
+    if rest.all (fun p => p.2 == r) then .ok r
+    else .ok ("MODEL-MISMATCH " ++ " | ".intercalate (rs.map fun p => p.1 ++ ": " ++ p.2))
+  | [] => .error "unreachable"
+
+def opHash : Handler := fun _ j => do
+  let v ← decValue (← field j "v")
+  .ok (toString (goHash v).toNat)
+
+def opEq : Handler := fun _ j => do
+  let a ← decValue (← field j "a")
+  let b ← decValue (← field j "b")
+  .ok s!"eq={bit (a.beq b)} qe={bit (b.beq a)} kind={bit (a.kind == b.kind)} hash={bit (goHash a == goHash b)}"
+
+def decPairs (j : Json) : D (List (String × Value)) := do
+  (← jArr j).mapM fun kv => do
+    match ← jArr kv with
+    | [k, v] => .ok ((← jHex k), (← decValue v))
+    | _ => .error "bad kv"
+
+def optShow : Option Value → String
+  | none => "-"
+  | some v => showValue v
+
+def recObsImpl (hash : Value → UInt64) (a b : List (String × Value)) (probes : List String) : String :=
+  let ra := newRecord hash a
+  let rb := newRecord hash b
+  s!"lenA={ra.m.length} lenB={rb.m.length} eqAB={bit (ra.equal rb)} eqBA={bit (rb.equal ra)} eqAA={bit (ra.equal ra)}" ++
+  s!" getA=[{",".intercalate (probes.map fun k => optShow (ra.m.get k))}] getB=[{",".intercalate (probes.map fun k => optShow (rb.m.get k))}]"
+
+def recKVs : Value → List (String × Value)
+  | .record kvs => kvs
+  | _ => []
+
+def recObsList (a b : List (String × Value)) (probes : List String) : String :=
+  let va := mkRecord a
+  let vb := mkRecord b
+  s!"lenA={(recKVs va).length} lenB={(recKVs vb).length} eqAB={bit (va.beq vb)} eqBA={bit (vb.beq va)} eqAA={bit (va.beq va)}" ++
+  s!" getA=[{",".intercalate (probes.map fun k => optShow (kvGet k (recKVs va)))}] getB=[{",".intercalate (probes.map fun k => optShow (kvGet k (recKVs vb)))}]"
+
+def opRecOps : Handler := fun _ j => do
+  let a ← decPairs (← field j "a")
+  let b ← decPairs (← field j "b")
+  let probes ← (← jArr (fieldOr j "probes" (.arr #[]))).mapM jHex
+  let rs := [("go", recObsImpl goHash a b probes), ("const", recObsImpl constHash a b probes), ("list", recObsList a b probes)]
+  match rs with
+  | (_, r) :: rest =>
+    if rest.all (fun p => p.2 == r) then
+      .ok (r ++ s!" hashA={(newRecord goHash a).hashVal.toNat} showA={showValue (mkRecord a)}")
+    else .ok ("MODEL-MISMATCH " ++ " | ".intercalate (rs.map fun p => p.1 ++ ": " ++ p.2))
+  | [] => .error "unreachable"
+
+def c11Ops : List (String × Handler) :=
+  [("set-ops", opSetOps), ("hash", opHash), ("eq", opEq), ("rec-ops", opRecOps)]
 
 end CedarGo.Driver
